@@ -114,6 +114,8 @@ def k_compare(prop, c, impl, model, points=('o2', 'o3'), project=None):
         io, mo = impl.get(pt), model.get(pt)
         if io is None or mo is None:
             fs.append(Finding('K', prop + '/no-observation', cid, pt)); continue
+        if tag(io) == 'unavailable':
+            continue          # surface mode: the harness could not be built against pyxis's internals
         if pt == 'o2':
             a, b = canon.canon_o2(io), canon.canon_o2(mo)
         else:
